@@ -31,6 +31,7 @@ type solveCfg struct {
 	timeoutS int // race timeout
 	workers  int
 	keep     bool
+	noRetry  bool
 }
 
 func buildQuery(fr *FuncResult, o *Obligation, values []string) string {
@@ -182,6 +183,42 @@ func solveAll(cfg *solveCfg, frs []*FuncResult) {
 		ch <- j
 	}
 	close(ch)
+	wg.Wait()
+	// second chance: an obligation that timed out (a loaded machine makes the
+	// wall-clock limits much tighter) is retried with few queries in flight
+	// and a limit six times as long before it is reported as not discharged.
+	var again []job
+	for _, j := range jobs {
+		if !j.o.Cover && (j.o.Status == "timeout" || j.o.Status == "unknown") {
+			again = append(again, j)
+		}
+	}
+	if len(again) == 0 || cfg.noRetry {
+		return
+	}
+	cfg2 := *cfg
+	cfg2.quickS = cfg.timeoutS
+	cfg2.timeoutS = max(6*cfg.timeoutS, 120)
+	if len(again) > 8 {
+		cfg2.timeoutS = max(3*cfg.timeoutS, 60)
+	}
+	ch2 := make(chan job)
+	for i := 0; i < 4; i++ {
+		wg.Add(1)
+		go func() {
+			defer wg.Done()
+			for j := range ch2 {
+				first := j.o.Secs
+				solveOne(&cfg2, j.fr, j.o, modelValues(j.fr, j.o))
+				j.o.Secs += first
+				j.o.Retried = true
+			}
+		}()
+	}
+	for _, j := range again {
+		ch2 <- j
+	}
+	close(ch2)
 	wg.Wait()
 }
 
